@@ -1,6 +1,6 @@
 (* C04 Cancel / expire / reject return exactly the cancelled escrow to its depositor. *)
 From ATS Require Import Prelude Dec DecFacts Uuid Semver Types Contract Tactics Spec Inv InvAsk InstProofs AskProofs
-  BidFacts InvBid InvStep ExitProofs.
+  BidFacts InvBid InvStep ExitProofs Ledger Recipients RejectLive.
 
 (* owner-initiated ask cancel: only the owner, no funds; pays the owner the remaining size in the ask's base and,
    for an approved convertible ask, the approver the recorded approver amount (= the remaining size in every
@@ -56,3 +56,50 @@ Theorem C04_reverse_bid : forall e st sender funds m id action is_cancel csz st'
                                                       (b_fee b) (b_id b) (b_owner b) (b_price b) (b_quote b))) (st_bids st)).
 Proof. exact bid_reverse_settles. Qed.
 Print Assumptions C04_reverse_bid.
+
+(* "Nobody else is paid", account by account ([received d x ms] = what the messages ms deliver to account x in
+   denomination d).  An ask exit of effective size c (the whole remaining size for a cancel): the owner receives c of the
+   denomination the ask sells, the approver of an approved ask c of the contract's base, every other account 0. *)
+Theorem C04_ask_exit_recipients : forall e st sender funds m st' r,
+  InvA st -> (exists id, m = CancelAsk id \/ m = ExpireAsk id \/ exists s, m = RejectAsk id s) ->
+  execute FX e st sender funds m = Ok (st', r) ->
+  exists c a eff id,
+    st_cfg st = Some c /\ lookup id (st_asks st) = Some a /\ eff <= a_size a /\
+    (forall id', m = CancelAsk id' -> eff = a_size a) /\
+    forall x d,
+      received d x (r_msgs r) =
+        sel x (a_owner a) (ind d (a_base a) eff) +
+        match a_class a with Ready ap _ => sel x ap (ind d (cf_base c) eff) | _ => 0 end.
+Proof. exact ask_exit_recipients. Qed.
+Print Assumptions C04_ask_exit_recipients.
+
+(* A bid exit of effective size c: the owner receives cq = price * c of quote plus the part fa of the escrowed fee no longer
+   needed for what remains, every other account 0. *)
+Theorem C04_bid_exit_recipients : forall e st sender funds m id action is_cancel csz st' r,
+  Inv st -> clean_exec st m -> bid_reverse_of m = Some (id, action, is_cancel, csz) ->
+  execute FX e st sender funds m = Ok (st', r) ->
+  exists b p eff cq fa,
+    lookup id (st_bids st) = Some (SlotV3 b) /\ price_of (b_price b) p /\
+    eff = match csz with None => unfilled b | Some s => s end /\
+    cq * 10 ^ d_scale p = d_mant p * eff /\ fee_cond b cq fa /\
+    forall x d, received d x (r_msgs r) = sel x (b_owner b) (ind d (c_denom (b_quote b)) (cq + fa)).
+Proof. exact bid_exit_recipients. Qed.
+Print Assumptions C04_bid_exit_recipients.
+
+(* The size rule is exact: "a partial size must be a positive multiple of the size increment not exceeding what remains"
+   (only-if: C04_reverse_ask, C04_reverse_bid) -- and conversely an executor's reject by such a size is carried out, for
+   asks in every state satisfying InvA, for bids in every state satisfying Inv (no side condition: a lot times an
+   in-precision price is whole, and the fee to keep never exceeds the fee held, by monotonicity of the pro-rata function). *)
+Theorem C04_reject_ask_if : forall e st c id a sender s,
+  InvA st -> st_cfg st = Some c -> In sender (cf_executors c) -> lookup id (st_asks st) = Some a ->
+  1 <= s -> s mod cf_increment c = 0 -> s <= a_size a ->
+  is_ok (execute FX e st sender [] (RejectAsk id (Some s))) = true.
+Proof. exact reject_ask_if. Qed.
+Print Assumptions C04_reject_ask_if.
+
+Theorem C04_reject_bid_if : forall e st c id b sender s,
+  Inv st -> st_cfg st = Some c -> In sender (cf_executors c) -> lookup id (st_bids st) = Some (SlotV3 b) ->
+  1 <= s -> s mod cf_increment c = 0 -> s <= unfilled b ->
+  is_ok (execute FX e st sender [] (RejectBid id (Some s))) = true.
+Proof. exact reject_bid_if. Qed.
+Print Assumptions C04_reject_bid_if.
